@@ -231,6 +231,9 @@ class ProgramIndex:
         from .normalize import expand_generator_scopes
 
         self.normalised += expand_generator_scopes(trees_)
+        from .normalize import specialise_lambda_arguments
+
+        self.normalised += specialise_lambda_arguments(trees_)
         for m in self.modules.values():
             self._index_module(m)
         self.digest = digest.hexdigest()
